@@ -148,14 +148,24 @@ Proof.
     + rewrite upd_getf_upd. rewrite <- E. exact RI.
 Qed.
 
+Lemma run_pass_open_inv (rc:rcfg) (p:pass) (m:mst) : new_sane p ->
+  Inv (m_disk m) -> CacheOK (m_cache m) ->
+  Inv (m_disk (pr_m (run_pass_open St test rc p m))) /\ CacheOK (m_cache (pr_m (run_pass_open St test rc p m))).
+Proof.
+  intros NS HI HC. unfold run_pass_open. destruct (Z.eqb (total_size (m_disk m)) 0); simpl; auto.
+  pose proof (files_inv rc p NS (sorted_files (m_disk m)) (m_disk m) (m_cache m) (m_x m) 0 0 (m_sch m) [] HI HC) as F.
+  destruct (files St test rc p (sorted_files (m_disk m)) (m_disk m) (m_cache m) (m_x m) 0 0 (m_sch m) []) as [[d' c'] r].
+  simpl. tauto.
+Qed.
+
 Theorem run_pass_inv (rc:rcfg) (p:pass) (m:mst) : new_sane p ->
   Inv (m_disk m) -> CacheOK (m_cache m) ->
   Inv (m_disk (pr_m (run_pass St test rc p m))) /\ CacheOK (m_cache (pr_m (run_pass St test rc p m))).
 Proof.
-  intros NS HI HC. unfold run_pass. destruct (Z.eqb (total_size (m_disk m)) 0); simpl; auto.
-  pose proof (files_inv rc p NS (sorted_files (m_disk m)) (m_disk m) (m_cache m) (m_x m) 0 0 (m_sch m) [] HI HC) as F.
-  destruct (files St test rc p (sorted_files (m_disk m)) (m_disk m) (m_cache m) (m_x m) 0 0 (m_sch m) []) as [[d' c'] r].
-  simpl. tauto.
+  intros NS HI HC. unfold run_pass. destruct (m_start m) as [k|]; [destruct (N.eqb k (p_key St p))|].
+  - apply run_pass_open_inv; auto.
+  - simpl. auto.
+  - apply run_pass_open_inv; auto.
 Qed.
 
 Lemma run_list_inv (rc:rcfg) : forall ps m acc, Forall new_sane ps ->
